@@ -20,6 +20,53 @@ pub struct Case {
     pub subsets: Vec<Vec<u8>>,
     #[serde(default)]
     pub source_all: String,
+    /// index + 1 into SNIPPETS (0 = none): hand-written declarations with open (`*`) or generic member types and annotated
+    /// definitions of those types, appended to the generated program; its annotation sites follow the same subsets
+    #[serde(default)]
+    pub snippet: usize,
+}
+
+
+/// (top-level declarations, definitions inside the function `zzsnip`: (name, annotation, mutable, value))
+type Snip = (&'static str, &'static [(&'static str, &'static str, bool, &'static str)]);
+const SNIPPETS: &[Snip] = &[
+    ("Zopt :: enum\n    Zjust *,\n    Znone,\nend\n", &[("za", "Zopt", true, "Zopt.Zjust 1"), ("zb", "Zopt", true, "Zopt.Zjust \"abc\""), ("zc", "Zopt", false, "Zopt.Znone")]),
+    ("Zhold :: blob { b: * }\n", &[("za", "Zhold", true, "Zhold { b: 1 }"), ("zb", "Zhold", false, "Zhold { b: \"s\" }")]),
+    (
+        "Zbox :: blob(*T) { v: *T }\n",
+        &[("za", "Zbox", true, "Zbox { v: 1 }"), ("zb", "Zbox", true, "Zbox { v: \"s\" }"), ("zc", "Zbox(int)", false, "Zbox { v: 2 }")],
+    ),
+    (
+        "Zopt :: enum\n    Zjust *,\n    Znone,\nend\nzzf :: fn p: Zopt -> int do\n    1\nend\n",
+        &[("zx", "int", true, "zzf(Zopt.Zjust 1)"), ("zy", "int", true, "zzf(Zopt.Zjust \"s\")"), ("zo", "Zopt", false, "Zopt.Zjust 2.5")],
+    ),
+    (
+        "Zpair :: blob(*A, *B) { l: *A, r: *B }\n",
+        &[
+            ("za", "Zpair(int, str)", true, "Zpair { l: 1, r: \"s\" }"),
+            ("zb", "Zpair", true, "Zpair { l: \"s\", r: 1 }"),
+            ("zc", "(int, Zpair)", false, "(1, Zpair { l: 1.5, r: true })"),
+        ],
+    ),
+];
+
+/// the snippet with the annotation of definition j written when `bit(j)` says so
+fn snippet_text(k: usize, bit: &dyn Fn(usize) -> bool) -> String {
+    if k == 0 || k > SNIPPETS.len() {
+        return String::new();
+    }
+    let (decls, defs) = SNIPPETS[k - 1];
+    let mut s = String::from(decls);
+    s.push_str("zzsnip :: fn do\n");
+    for (j, (name, ty, mutable, value)) in defs.iter().enumerate() {
+        if bit(j) {
+            s.push_str(&format!("    {}: {} {} {}\n", name, ty, if *mutable { "=" } else { ":" }, value));
+        } else {
+            s.push_str(&format!("    {} {} {}\n", name, if *mutable { ":=" } else { "::" }, value));
+        }
+    }
+    s.push_str("end\n");
+    s
 }
 
 fn plan_with(bits: Vec<u8>) -> SurfacePlan {
@@ -53,18 +100,39 @@ impl Check for C08 {
             let bits: Vec<u8> = (0..400).map(|_| if t.chance(density, 8) { 1 } else { 0 }).collect();
             subsets.push(bits);
         }
-        let source_all = render(&prog, &plan_with(vec![1; 400])).text;
-        Some(Case { prog, subsets, source_all })
+        let snippet = if t.chance(1, 3) { 1 + t.below(SNIPPETS.len()) } else { 0 };
+        let source_all = format!("{}{}", render(&prog, &plan_with(vec![1; 400])).text, snippet_text(snippet, &|_| true));
+        Some(Case { prog, subsets, source_all, snippet })
     }
 
     fn evaluate(&self, case: &Case, labels: &mut Labels) -> Verdict {
         let all = plan_with(vec![1; 2000]);
-        let pall = render(&case.prog, &all);
+        let mut pall = render(&case.prog, &all);
+        pall.text.push_str(&snippet_text(case.snippet, &|_| true));
+        if case.snippet > 0 {
+            labels.add("open-or-generic-type-snippet");
+        }
         let base = compile(&Project::single(pall.text.clone()));
         let lua_all = match &base {
             Outcome::Accepted(b) => b.clone(),
             Outcome::Rejected { errors, .. } => {
                 labels.add(format!("all-annotated-rejected:{}:{}", errors[0].kind, errors[0].sub));
+                // the annotations are correct by construction: if the program without any of them is accepted, adding them
+                // must not get it rejected
+                let mut none = render(&case.prog, &plan_with(Vec::new()));
+                none.text.push_str(&snippet_text(case.snippet, &|_| false));
+                if let Outcome::Accepted(_) = compile(&Project::single(none.text.clone())) {
+                    let what = message_class(&errors[0].message);
+                    return Verdict::Violation {
+                        signature: format!("C08/rejected-when-annotated/{}:{}:{}", errors[0].kind, errors[0].sub, what.trim()),
+                        detail: format!(
+                            "without annotations the program is accepted, fully (and correctly) annotated it is rejected: {}\n--- fully annotated ---\n{}\n--- without annotations ---\n{}",
+                            base.short(),
+                            pall.text,
+                            none.text
+                        ),
+                    };
+                }
                 return Verdict::Discard("fully-annotated-rejected".into());
             }
             Outcome::Panicked { .. } => return Verdict::Discard("compiler-panicked".into()),
@@ -80,7 +148,10 @@ impl Check for C08 {
         }
         let mut distinct_subsets = std::collections::BTreeSet::new();
         for (name, plan) in &variants {
-            let p = render(&case.prog, plan);
+            let mut p = render(&case.prog, plan);
+            // the snippet's sites take their bits from the far end of the same subset
+            let bits = plan.annot.0.clone();
+            p.text.push_str(&snippet_text(case.snippet, &|j| bits.len() > j && bits[bits.len() - 1 - j] & 1 == 1));
             distinct_subsets.insert(p.annot_taken.clone());
             let out = compile(&Project::single(p.text.clone()));
             match &out {
@@ -134,7 +205,7 @@ impl Check for C08 {
             Step::Skip => Step::Skip,
             Step::Candidate(p) => {
                 let source_all = render(&p.prog, &plan_with(vec![1; 400])).text;
-                Step::Candidate(Case { prog: p.prog, subsets: case.subsets.clone(), source_all })
+                Step::Candidate(Case { prog: p.prog, subsets: case.subsets.clone(), source_all, snippet: case.snippet })
             }
         }
     }
@@ -147,7 +218,7 @@ impl Check for C08 {
     fn rule(&self) -> String {
         "cases: one random well-typed GenAST program rendered with different subsets of its annotation sites (variable definitions, \
          parameters of non-function type, return types): all sites, no site, and 2 (quick) / 4 (thorough) random subsets of random \
-         density. Oracle: if the fully annotated rendering is accepted, every variant is accepted and emits byte-identical Lua. \
+         density; a third of the cases also carry one of 5 hand-written snippets with open (`*`) or generic member types and annotated definitions of those types, whose annotations follow the same subsets. Oracle: if the fully annotated rendering is accepted, every variant is accepted and emits byte-identical Lua; if it is rejected, the rendering without annotations must be rejected as well. \
          non-trivial = >= 3 sites, at least two distinct subsets among the variants, and a site inside a closure (function literal \
          nested in a function); distinct by case hash"
             .into()
